@@ -464,6 +464,10 @@ class Interp:
             return lv[1]
         if lv[0] == 'local':
             if lv[1] not in env['locals']:
+                cv = const_int(lv[2], self.idx)
+                if cv is not None:
+                    ti = tinfo(lv[2], self.idx) or (32, True)
+                    return const(ti[0], ti[1], cv)
                 raise AnalysisBroken('read of unbound variable %s at %s' % (lv[2].get('referencedDecl', {}).get('name'), pos(lv[2])))
             return env['locals'][lv[1]]
         if lv[0] == 'field':
